@@ -9,8 +9,8 @@ import (
 
 func init() {
 	eng.Register(&eng.Check{
-		ID: "C05",
-		Rule: "E1 bounded product over configurations: selector paths of depth 1-4 with the missing step at leaf / intermediate / root under parents of every kind (string-keyed and other maps, interface- and pointer-wrapped, struct, slice, scalar), directly and through quantifier value aliases x 8 operators + any/all x unknown-value settings {none, int 0, int 1, \"\", \"a\", true, 1.5} x hook {none, unwrap-wrapper (values behind a wrapper struct at parent and leaf positions)}; oracles: (a,b) reference interpreter (absent-key table, error cases); (c) two-run: Evaluate(e,d,unknown=v) == Evaluate(e,d+) where d+ is d with v inserted at the absent path (when the absent step is under a map[string]interface{}); (d) when the reference sees no absent key/field, the outcome is identical with and without an unknown value. Distinct by construction; non-trivial = the reference met an absent key/field (NOTFOUND) in the case.",
+		ID:          "C05",
+		Rule:        "E1 bounded product over configurations: selector paths of depth 1-4 with the missing step at leaf / intermediate / root under parents of every kind (string-keyed and other maps, interface- and pointer-wrapped, struct, slice, scalar), directly and through quantifier value aliases x 8 operators + any/all x unknown-value settings {none, int 0, int 1, \"\", \"a\", true, 1.5} x hook {none, unwrap-wrapper (values behind a wrapper struct at parent and leaf positions)}; oracles: (a,b) reference interpreter (absent-key table, error cases); (c) two-run: Evaluate(e,d,unknown=v) == Evaluate(e,d+) where d+ is d with v inserted at the absent path (when the absent step is under a map[string]interface{}); (d) when the reference sees no absent key/field, the outcome is identical with and without an unknown value. Distinct by construction; non-trivial = the reference met an absent key/field (NOTFOUND) in the case.",
 		Assumptions: []string{"reference interpreter as in C01", "unknown values drawn from scalar kinds (non-scalar unknown values are outside the universe)"},
 		Run:         runC05,
 	})
